@@ -568,7 +568,12 @@ STEP_FAMILIES = {
     "int": [1.0, 2.0, 3.0, 5.0],
     "dyadic": [0.5, 0.25, 1.5, 2.5, 0.75],
     "decimal": [0.1, 0.3, 0.7, 1.1, 2.3],
+    # large offset, small spacing: distinct grid lines agree in their first 6+ significant digits
+    "bigoffset": [0.25, 0.5, 0.75],
+    # coordinates whose decimal representation is long (17 significant digits)
+    "thirds": [1 / 3, 2 / 3, 1 / 7, 0.1 + 0.2],
 }
+BIG_ORIGINS = [1e5, 250000.0, 1e6, 1e7, 123456.0, -1e5, -250000.0, -1e6, -1e7, 4194304.5, -99999.75]
 ORIGINS = [0.0, 0.0, 1.0, -1.0, 2.5, -0.5, 7.0, 0.1, -3.25]
 
 
@@ -585,8 +590,14 @@ def gen_grid_input(rng, m, n, k, fam=None, bound_mode=None, via=None):
     if rng.random() < 0.3:
         ox, oy = 0.0, 0.0
     if via == "select_box":   # centre ± size/2 must be exact: dyadic data only
-        fam = rng.choice(["unit", "int", "dyadic"])
+        fam = rng.choice(["unit", "int", "dyadic", "bigoffset"])
         ox, oy = rng.choice([0.0, 1.0, -1.0, 2.5, -0.5]), rng.choice([0.0, 1.0, -1.0, 2.5, -0.5])
+    if fam == "bigoffset":
+        ox, oy = rng.choice(BIG_ORIGINS), rng.choice(BIG_ORIGINS + [0.0, 1.0])
+        if rng.random() < 0.5:
+            ox, oy = oy, ox
+    elif fam == "thirds" and rng.random() < 0.5:
+        ox, oy = rng.choice([1 / 3, -2 / 3, 1e3 + 1 / 3, 0.0]), rng.choice([1 / 3, -1 / 7, 0.0, 12345.678])
     xs, ys = gen_axis(rng, m, fam, ox), gen_axis(rng, n, fam, oy)
     order = list(range(m * n))
     if rng.random() < 0.5:
@@ -667,8 +678,10 @@ def gen_raw(rng):
 
 
 def run(ctx: Ctx) -> None:
-    ctx.rule = ("product grids m×n of cells with coordinates origin + cumulative steps from 4 step families (unit, integer, "
-                "dyadic fractions incl. 2.5, decimal fractions) and 9 origins (0, positive, negative, fractional), cells in "
+    ctx.rule = ("product grids m×n of cells with coordinates origin + cumulative steps from 6 step families (unit, integer, "
+                "dyadic fractions incl. 2.5, decimal fractions, 'bigoffset' = steps .25/.5/.75 from origins ±1e5…±1e7 so that distinct "
+                "grid lines share their first 6+ significant digits, 'thirds' = steps 1/3, 2/3, 1/7 with 17-digit coordinates) and 9 "
+                "origins (0, positive, negative, fractional), cells in "
                 "row-major or shuffled order, occupancies in {0, 1, .5, .9, .25, random}, ratio 2 or 3, k boxes; the real "
                 "rect.solve is run with a cost bound (none / max achievable / max+1 / random achievable±1); part of the grids "
                 "go through rect_io.select_box (dyadic data). quick: every shape ≤ 3×3 with k ≤ 3 (5 grids per shape for k ≤ 2, "
@@ -699,7 +712,7 @@ def run(ctx: Ctx) -> None:
         for k in (1, 2, 3):
             for r in range(reps if (k < 3 or not quick) else 2):
                 for via in (None, "select_box") if (m * n <= 4 or not quick) else (None,):
-                    inp = gen_grid_input(rng, m, n, k, fam=fams[(m + n + k + r) % 4] if via is None else None, via=via)
+                    inp = gen_grid_input(rng, m, n, k, fam=fams[(m + n + k + r) % len(fams)] if via is None else None, via=via)
                     inputs.append(inp)
                     # the same grid with a cost bound
                     mode = rng.choice(["max", "unsat", "rand", "rand"])
